@@ -216,6 +216,9 @@ func (idb *Client) getBuffer(ctx context.Context) (*bytes.Buffer, io.WriteCloser
 }
 
 func (idb *Client) releaseBuffer(buf *bytes.Buffer) {
+	if buf == nil {
+		return
+	}
 	buf.Reset()
 	idb.reqBufferSem <- buf
 }
